@@ -34,6 +34,9 @@ vars == <<blk, tid>>
 KFWriter == " KF=C16-sdf-writer"
 KFReaderEnd == " KF=C16-sdf-reader-end"
 
+(* the as-built property-block loop fails with IndexError exactly on records that end at "M  END" *)
+ReaderEndTag(exc, R) == IF exc = "IndexError" /\ \E i \in DOMAIN R : SdfEndsAtMEnd(R[i]) THEN KFReaderEnd ELSE ""
+
 AllPrintable(lines) == \A i \in DOMAIN lines : PrintableLine(lines[i])
 FirstBad(S) == CHOOSE i \in S : \A j \in S : i <= j
 
@@ -74,7 +77,7 @@ SdfDrift(mols, R) ==
   (IF \E i \in DOMAIN R : SdfBlankBeforeEnd(R[i], 5 + SdfCountsOf(R[i][4]).na + SdfCountsOf(R[i][4]).nb)
    THEN " drift=blank-line-before-M-END" ELSE "") \o
   (IF \E i \in DOMAIN R : \E j \in DOMAIN mols[i].atoms :
-        \A k \in 1..3 : Len(mols[i].atoms[j].c[k].fr) = 1 /\ R[i][4 + j] # SdfAtomLine(mols[i].atoms[j])
+        (\A k \in 1..3 : Len(mols[i].atoms[j].c[k].fr) = 1) /\ R[i][4 + j] # SdfAtomLine(mols[i].atoms[j])
    THEN " drift=SdfAtomLine" ELSE "")
 SdfRtVerdict(mols, wexc, lines, back) ==
   IF ~(Len(mols) >= 1 /\ \A i \in DOMAIN mols : SdfAtomsOK(mols[i].atoms) /\ mols[i].nb <= 999) THEN "OOD guard" ELSE
@@ -82,12 +85,12 @@ SdfRtVerdict(mols, wexc, lines, back) ==
   IF ~AllPrintable(lines) THEN "REJECT TextBytes" ELSE
   LET R == SdfRecords(lines) IN
   IF Len(R) # Len(mols) THEN "REJECT Records" \o KFWriter ELSE
-  LET lay == [i \in DOMAIN R |-> SdfLayout(R[i])]
+  LET lay == Tup([i \in DOMAIN R |-> SdfLayout(R[i])])
       badLay == {i \in DOMAIN R : lay[i] # ""}
   IN IF badLay # {} THEN "REJECT SdfLayout." \o lay[FirstBad(badLay)] \o KFWriter ELSE
-  LET rr == [i \in DOMAIN R |-> SdfReadRecord(R[i])] IN
+  LET rr == Tup([i \in DOMAIN R |-> SdfReadRecord(R[i])]) IN
   IF \E i \in DOMAIN R : ~(rr[i].ok /\ SdfAtomsFromInput(mols[i].atoms, rr[i].atoms)) THEN "REJECT WriterContent" \o KFWriter ELSE
-  IF back.exc # "" THEN "REJECT ReadRaised:" \o back.exc \o (IF \E i \in DOMAIN R : SdfEndsAtMEnd(R[i]) THEN KFReaderEnd ELSE "") ELSE
+  IF back.exc # "" THEN "REJECT ReadRaised:" \o back.exc \o ReaderEndTag(back.exc, R) ELSE
   IF Len(back.mols) # Len(mols) THEN "REJECT RecordCount" ELSE
   IF back.offgrid THEN "REJECT OnGrid" ELSE
   IF \E i \in DOMAIN R : ~SdfAtomsSame(rr[i].atoms, back.mols[i].atoms) THEN "REJECT RoundTrip" ELSE
@@ -104,7 +107,7 @@ SdfReadEv(t) ==
   THEN "OOD guard" ELSE
   IF t.lines # SdfFile(t.names, t.mols, t.style) THEN "OOD BadProposal" ELSE
   LET R == SdfRecords(t.lines) IN
-  IF t.back.exc # "" THEN "REJECT ReadRaised:" \o t.back.exc \o (IF \E i \in DOMAIN R : SdfEndsAtMEnd(R[i]) THEN KFReaderEnd ELSE "") ELSE
+  IF t.back.exc # "" THEN "REJECT ReadRaised:" \o t.back.exc \o ReaderEndTag(t.back.exc, R) ELSE
   IF Len(t.back.mols) # Len(t.mols) THEN "REJECT RecordCount" ELSE
   IF t.back.offgrid THEN "REJECT OnGrid" ELSE
   IF \E i \in DOMAIN t.mols : ~SdfAtomsSame(AtomsOf(t.mols[i]), t.back.mols[i].atoms) THEN "REJECT ReaderContent" ELSE
@@ -114,12 +117,13 @@ SdfReadEv(t) ==
 SdfFileEv(t) ==
   IF ~AllPrintable(t.lines0) THEN "OOD bytes" ELSE
   LET R0 == SdfRecords(t.lines0)
-      lay == [i \in DOMAIN R0 |-> SdfLayout(R0[i])]
+      lay == Tup([i \in DOMAIN R0 |-> SdfLayout(R0[i])])
+      rr0 == Tup([i \in DOMAIN R0 |-> SdfReadRecord(R0[i])])
   IN IF Len(R0) = 0 \/ \E i \in DOMAIN R0 : lay[i] # "" THEN "OOD FileNotV2000" ELSE
-  IF t.back0.exc # "" THEN "REJECT FileReadRaised:" \o t.back0.exc \o (IF \E i \in DOMAIN R0 : SdfEndsAtMEnd(R0[i]) THEN KFReaderEnd ELSE "") ELSE
+  IF t.back0.exc # "" THEN "REJECT FileReadRaised:" \o t.back0.exc \o ReaderEndTag(t.back0.exc, R0) ELSE
   IF Len(t.back0.mols) # Len(R0) THEN "REJECT FileRecordCount" ELSE
   IF t.back0.offgrid THEN "REJECT OnGrid" ELSE
-  IF \E i \in DOMAIN R0 : ~(SdfReadRecord(R0[i]).ok /\ SdfAtomsSame(SdfReadRecord(R0[i]).atoms, t.back0.mols[i].atoms)) THEN "REJECT FileRead" ELSE
+  IF \E i \in DOMAIN R0 : ~(rr0[i].ok /\ SdfAtomsSame(rr0[i].atoms, t.back0.mols[i].atoms)) THEN "REJECT FileRead" ELSE
   SdfRtVerdict([i \in DOMAIN R0 |-> [atoms |-> t.back0.mols[i].atoms, nb |-> 0]], t.wexc, t.lines, t.back)
 
 (* ---- XYZ ---------------------------------------------------------------- *)
